@@ -32,7 +32,8 @@ def run(ctx):
     ctx.extra["open_deviations"] = devs
 
     # 1. design
-    kvlib.check_design(ctx, [("reload", 3 if thorough else 2)], workers=1, coverage_family="reload" if thorough else None)
+    kvlib.check_design(ctx, [("reload", 3 if thorough else 2), ("resurrect", 8 if thorough else 7)], workers=2,
+                       coverage_family="reload" if thorough else None)
     kvlib.check_witnesses(ctx, mine, workers=2)
     if thorough:
         kvlib.check_bookkeeping(ctx, devs, [("reload", 2)], workers=1)
@@ -65,6 +66,18 @@ def run(ctx):
                     steps += g.history(40) + READS + [dict(op="CloseReload", how="idle")] + READS
                     g.sets = {k: v for k, v in g.sets.items() if isinstance(v, set)}
                 idle.append(run_.add(steps, mode, "long-%d" % i))
+            # delete / re-create / delete around flushes (family "resurrect"): the witness of
+            # D_C05_DeleteRecreateResurrects and sampled histories over that alphabet, reads after every reload
+            res = alph["resurrect"]["reqs"]
+            rget = [q for q in res if q["op"] == "Get"][0]
+            wit = [q for q in res if q["op"] == "Set"]
+            dele = [q for q in res if q["op"] == "Delete"][0]
+            rel = [q for q in res if q["op"] == "CloseReload"][0]
+            k1set = [q for q in wit if q["items"][0]["k"] == "k1"][0]
+            idle.append(run_.add(wit + [rel, dele, k1set, dele, rel, rget, dict(op="GetAll")], mode, "resurrect-witness"))
+            for _ in range(1200 if thorough else 120):
+                steps = [rng.choice(res) for _ in range(rng.choice([6, 7, 8, 9]))]
+                idle.append(run_.add(steps + [rel, rget, dict(op="GetAll")], mode, "resurrect-sample"))
             # graceful stop + restart instead of idle eviction (sequential: it closes every swamp of the process)
             for q in rng.sample(writes, len(writes) if thorough else 10):
                 stop.append(run_.add(wrap([q, rng.choice(writes)], "stop"), mode, "stop"))
